@@ -45,6 +45,7 @@ def cases(tier, seed):
                     "mask": bool(rng.random() < 0.4),
                     "chunks": ("numpy", "full", "images", "space", "both", "both")[int(rng.integers(0, 6))],
                     "sched": ("sync", "threads", "shuffle")[int(rng.integers(0, 3))],
+                    "flat": bool(rng.random() < 0.3),
                     "iseed": int(rng.integers(0, 2**31)), "cost": 2.0 + S ** 3 / 300})
     for i in range(nl):
         out.append({"kind": "loader", "N": int(rng.integers(8, 21)), "S": int(rng.choice([6, 7, 8])),
@@ -79,6 +80,11 @@ def _stack_case(case):
     C = C - C.mean(0)
     sv = 100.0 * (1 / 3.0) ** np.arange(r)
     X = (C * sv) @ Q.T + rng.normal(size=(1, D)) + 1e-5 * rng.normal(size=(N, D))
+    flat = bool(p.get("flat"))
+    if flat:
+        # noise-dominated stack (what sub-tomograms look like): no spectral gap below the planted group direction
+        X = rng.normal(size=(N, D)) + rng.normal(size=(1, D))
+        case.count("flat_spectrum_stacks")
     # two planted groups on the first component for the clustering claim
     grp = (rng.random(N) < 0.5).astype(int)
     if grp.sum() < 2 or grp.sum() > N - 2:
@@ -124,20 +130,41 @@ def _stack_case(case):
                       sv=sv_got.shape, comp=comp.shape):
         return
     err = float(np.max(np.abs(sv_got - Sv[:k]) / Sv[:k]))
-    case.maxobs("max_sv_rel_err_" + ("rand" if randomized else "full"), err)
-    case.check(err <= rt, "singular values differ from the exact SVD", None, got=sv_got, want=Sv[:k],
-               chunks=ch, randomized=randomized)
+    # open finding: above 500 voxels the solver is dask's one-pass randomised SVD (rank-20 sketch, no power
+    # iteration, unseeded): exact only for <= 20 images or numerically low-rank stacks
+    inexact = randomized and flat and N > 20
+    tag = "randflat" if inexact else ("rand" if randomized else "full")
+    case.maxobs("max_sv_rel_err_" + tag, err)
+    case.check(err <= rt, "singular values differ from the exact SVD",
+               "pca.randomized-solver-inexact" if (inexact and err <= 0.10) else None, got=sv_got, want=Sv[:k],
+               chunks=ch, randomized=randomized, flat=flat, N=N, D=D)
+    # a component is determined (up to sign) only if its singular value is separated from its neighbours
+    gap = np.array([min(Sv[j - 1] / Sv[j] if j else np.inf, Sv[j] / Sv[j + 1]) for j in range(k)])
+    sel = gap >= 1.5
+    case.count("components_judged", int(sel.sum()))
+    case.count("components_undetermined", int((~sel).sum()))
     cos = np.abs(np.sum(comp * Vt[:k], axis=1) / np.linalg.norm(comp, axis=1))
-    case.maxobs("max_one_minus_cos_" + ("rand" if randomized else "full"), float(1 - cos.min()))
-    case.check(bool(np.all(cos >= 1 - ct)), "principal components differ from the exact SVD (beyond sign)", None,
-               cos=cos, chunks=ch, randomized=randomized)
+    if sel.any():
+        case.maxobs("max_one_minus_cos_" + tag, float(1 - cos[sel].min()))
+        case.check(bool(np.all(cos[sel] >= 1 - ct)), "principal components differ from the exact SVD (beyond sign)",
+                   "pca.randomized-solver-inexact" if (inexact and bool(np.all(cos[sel] >= 0.98))) else None,
+                   cos=cos, chunks=ch, randomized=randomized, flat=flat)
     signs = np.sign(np.sum(comp * Vt[:k], axis=1))
     want_tr = (Xm - mean) @ Vt[:k].T * signs
     scale = float(np.abs(want_tr).max())
-    terr = float(np.abs(tr - want_tr).max()) / scale if tr.shape == want_tr.shape else np.inf
-    case.maxobs("max_proj_rel_err", terr if np.isfinite(terr) else 9.9)
-    case.check(tr.shape == (N, k) and terr <= TOLERANCES["proj_rel"], "projections differ from (X - mean) V^T", None,
-               err=terr, shape=tr.shape, chunks=ch)
+    ok_shape = tr.shape == want_tr.shape
+    terr = float(np.abs(tr[:, sel] - want_tr[:, sel]).max()) / scale if (ok_shape and sel.any()) else (0.0 if ok_shape else np.inf)
+    case.maxobs("max_proj_rel_err" + ("_randflat" if inexact else ""), terr if np.isfinite(terr) else 9.9)
+    case.check(tr.shape == (N, k) and terr <= TOLERANCES["proj_rel"], "projections differ from (X - mean) V^T",
+               "pca.randomized-solver-inexact" if (inexact and ok_shape and terr <= 0.05) else None,
+               err=terr, shape=tr.shape, chunks=ch, flat=flat)
+    if ok_shape and not inexact:
+        # whatever basis is chosen inside a degenerate subspace, projections are the data times the reported components
+        own = (Xm - mean) @ comp.T
+        oerr = float(np.abs(tr - own).max()) / max(float(np.abs(own).max()), 1e-12)
+        case.maxobs("max_proj_vs_own_components", oerr)
+        case.check(oerr <= TOLERANCES["proj_rel"], "projections are not (X - mean) times the reported components", None,
+                   err=oerr, chunks=ch, flat=flat)
     labels = np.asarray(clf.labels)
     case.check(labels.shape == (N,) and np.issubdtype(labels.dtype, np.integer), "labels: wrong shape or dtype", None)
     if labels.shape == (N,):
